@@ -275,3 +275,633 @@ Qed.
 
 Lemma dial_unsupported cfg lport : dial_model cfg LOther lport = DUnsupported.
 Proof. reflexivity. Qed.
+
+(* ------------------------------------------------------------------ *)
+(* (b) http relay                                                      *)
+
+(* a message is self-delimiting for the framing: it parses as exactly itself and no
+   proper prefix of it is complete (or rejected) *)
+Definition sd_req (msg : bytes) (m : sem_req) : Prop :=
+  frame_req msg = QComplete (length msg) m /\
+  forall k, (k < length msg)%nat -> frame_req (firstn k msg) = QIncomplete.
+
+Definition sd_resp (to_head : bool) (raw : bytes) (p : sem_resp) : Prop :=
+  frame_resp to_head raw = PComplete (length raw) p /\
+  forall k, (k < length raw)%nat -> frame_resp to_head (firstn k raw) = PIncomplete.
+
+Definition set_buf (s : st) (b : bytes) : st :=
+  mkSt b (s_replies s) (s_recvd s) (s_broken s) (s_fwd s) (s_del s) (s_written s).
+
+Definition on_complete (m : sem_req) (r : list citem) (s : st) : st * endk :=
+  let fwd := reser_req m :: s_fwd s in
+  let reply := match s_replies s with [] => DEFAULT_REPLY | x :: _ => x end in
+  let rest := tl (s_replies s) in
+  match read_reply (is_head m) [] reply with
+  | RBad => (mkSt [] rest (s_recvd s) (s_broken s) fwd (s_del s) (s_written s), EBadReply)
+  | RStall => (mkSt [] rest (s_recvd s) (s_broken s) fwd (s_del s) (s_written s), EStall)
+  | RGot p =>
+      let p' := reser_resp p in
+      if s_broken s
+      then run r (mkSt [] rest (s_recvd s) true fwd (s_del s) (s_written s + 1)%N)
+      else run r (mkSt [] rest (s_recvd s + 1)%N (stray_after (is_head m) p) fwd (p' :: s_del s) (s_written s + 1)%N)
+  end.
+
+Lemma run_seg b r s :
+  run (ISeg b :: r) s =
+  match frame_req (s_buf s ++ b) with
+  | QIncomplete => run r (set_buf s (s_buf s ++ b))
+  | QBad => (s, EBadRequest)
+  | QComplete _ m => on_complete m r s
+  end.
+Proof. reflexivity. Qed.
+
+Lemma run_wait k r s :
+  run (IWait k :: r) s = if (k <=? s_recvd s)%N then run r s else (s, EGaveUp).
+Proof. reflexivity. Qed.
+
+Lemma on_complete_buf m r s b : on_complete m r (set_buf s b) = on_complete m r s.
+Proof. reflexivity. Qed.
+
+Lemma frame_req_nil : frame_req [] = QIncomplete.
+Proof. reflexivity. Qed.
+
+Lemma sd_req_nonempty msg m : sd_req msg m -> msg <> [].
+Proof. intros [H _] ->. rewrite frame_req_nil in H. discriminate. Qed.
+
+(* the client leg: however the message is cut into (non-empty) writes, the proxy's reader
+   ends up with exactly the message *)
+Lemma client_leg msg m : sd_req msg m ->
+  forall segs s rest,
+    Forall (fun x => x <> []) segs ->
+    s_buf s ++ concat segs = msg -> (length (s_buf s) < length msg)%nat ->
+    run (map ISeg segs ++ rest) s = on_complete m rest s.
+Proof.
+  intros [Hc Hp]. induction segs as [|x segs IH]; intros s rest Hne Hcat Hlen.
+  - exfalso. cbn [concat] in Hcat. rewrite app_nil_r in Hcat. subst msg. lia.
+  - pose proof (Forall_inv Hne) as Hx. pose proof (Forall_inv_tail Hne) as Hne'. cbn [map app]. rewrite run_seg.
+    destruct segs as [|y r].
+    + cbn [concat] in Hcat. rewrite app_nil_r in Hcat. rewrite Hcat, Hc. reflexivity.
+    + assert (Hlt : (length (s_buf s ++ x) < length msg)%nat).
+      { rewrite <- Hcat. cbn [concat]. rewrite !app_length.
+        pose proof (Forall_inv Hne') as Hy. destruct y; [congruence|]. cbn [length]. lia. }
+      assert (Hpre : firstn (length (s_buf s ++ x)) msg = s_buf s ++ x).
+      { rewrite <- Hcat. cbn [concat]. rewrite app_assoc.
+        rewrite firstn_app, firstn_all, Nat.sub_diag. cbn [firstn]. apply app_nil_r. }
+      rewrite <- Hpre, (Hp _ Hlt), Hpre.
+      rewrite (IH (set_buf s (s_buf s ++ x)) rest Hne').
+      * apply on_complete_buf.
+      * cbn [set_buf s_buf]. rewrite <- Hcat. cbn [concat]. rewrite <- app_assoc. reflexivity.
+      * cbn [set_buf s_buf]. exact Hlt.
+Qed.
+
+(* the backend leg: however the reply is cut, the proxy's second reader reads exactly it *)
+Lemma backend_leg h raw p : sd_resp h raw p ->
+  forall rsegs buf, buf ++ concat rsegs = raw -> read_reply h buf rsegs = RGot p.
+Proof.
+  intros [Hc Hp]. induction rsegs as [|x r IH]; intros buf Hcat.
+  - cbn [concat] in Hcat. rewrite app_nil_r in Hcat. subst buf. cbn [read_reply]. rewrite Hc. reflexivity.
+  - cbn [read_reply]. destruct (Nat.eq_dec (length buf) (length raw)) as [E|E].
+    + assert (buf = raw).
+      { assert (length raw = (length buf + length (concat (x :: r)))%nat) by (rewrite <- Hcat, app_length; reflexivity).
+        assert (L : length (concat (x :: r)) = 0%nat) by lia.
+        apply length_zero_iff_nil in L. rewrite L, app_nil_r in Hcat. exact Hcat. }
+      subst buf. rewrite Hc. reflexivity.
+    + assert (Hlt : (length buf < length raw)%nat).
+      { assert (length raw = (length buf + length (concat (x :: r)))%nat) by (rewrite <- Hcat, app_length; reflexivity). lia. }
+      assert (Hpre : firstn (length buf) raw = buf).
+      { rewrite <- Hcat. rewrite firstn_app, firstn_all, Nat.sub_diag. cbn [firstn]. apply app_nil_r. }
+      rewrite <- Hpre, (Hp _ Hlt), Hpre. apply IH.
+      rewrite <- Hcat. cbn [concat]. rewrite <- app_assoc. reflexivity.
+Qed.
+
+Lemma waits_skip ws : forall rest s,
+  Forall (fun k => (k <= s_recvd s)%N) ws -> run (map IWait ws ++ rest) s = run rest s.
+Proof.
+  induction ws as [|k ws IH]; intros rest s H; [reflexivity|].
+  pose proof (Forall_inv H) as Hk. pose proof (Forall_inv_tail H) as Ht. cbn [map app]. rewrite run_wait.
+  cbv beta in Hk. destruct (k <=? s_recvd s)%N eqn:E; [apply IH; assumption|]. apply N.leb_gt in E. lia.
+Qed.
+
+(* one exchange of a client that never has two requests in the same write *)
+Record exch := mkEx {
+  x_msg : bytes; x_req : sem_req;        (* the request, and what it parses to *)
+  x_segs : list bytes;                   (* how the client writes it *)
+  x_waits : list N;                      (* replies it then waits for (none: it goes on at once) *)
+  x_raw : bytes; x_resp : sem_resp;      (* the backend's reply, and what it parses to *)
+  x_rsegs : list bytes }.                (* how the backend writes it *)
+
+Definition ex_ok (j : N) (e : exch) : Prop :=
+  sd_req (x_msg e) (x_req e) /\ concat (x_segs e) = x_msg e /\ Forall (fun s => s <> []) (x_segs e) /\
+  Forall (fun k => (k <= j + 1)%N) (x_waits e) /\
+  sd_resp (is_head (x_req e)) (x_raw e) (x_resp e) /\ concat (x_rsegs e) = x_raw e /\
+  stray_after (is_head (x_req e)) (x_resp e) = false.
+
+Fixpoint exs_ok (j : N) (exs : list exch) : Prop :=
+  match exs with [] => True | e :: r => ex_ok j e /\ exs_ok (j + 1)%N r end.
+
+Definition items_of (e : exch) : list citem := map ISeg (x_segs e) ++ map IWait (x_waits e).
+
+Lemma relay_aligned_gen exs : forall s,
+  exs_ok (s_recvd s) exs -> s_buf s = [] -> s_broken s = false -> s_replies s = map x_rsegs exs ->
+  exists s', run (flat_map items_of exs) s = (s', EEof) /\
+    s_fwd s' = rev (map (fun e => reser_req (x_req e)) exs) ++ s_fwd s /\
+    s_del s' = rev (map (fun e => reser_resp (x_resp e)) exs) ++ s_del s /\
+    s_recvd s' = (s_recvd s + N.of_nat (length exs))%N /\
+    s_written s' = (s_written s + N.of_nat (length exs))%N /\
+    s_broken s' = false /\ s_buf s' = [].
+Proof.
+  induction exs as [|e r IH]; intros s Hok Hbuf Hbr Hrep.
+  - exists s. cbn [flat_map run]. rewrite Hbuf. cbn [map rev app length]. repeat split; auto; lia.
+  - destruct Hok as [(Hsd & Hcat & Hne & Hw & Hsr & Hrcat & Hstray) Hok'].
+    cbn [flat_map]. unfold items_of at 1. rewrite <- app_assoc.
+    rewrite (client_leg _ _ Hsd (x_segs e) s _ Hne).
+    2: { rewrite Hbuf. exact Hcat. }
+    2: { rewrite Hbuf. cbn [length]. pose proof (sd_req_nonempty _ _ Hsd). destruct (x_msg e); [congruence|cbn [length]; lia]. }
+    unfold on_complete. rewrite Hrep. cbn [map tl].
+    rewrite (backend_leg _ _ _ Hsr (x_rsegs e) []) by exact Hrcat.
+    rewrite Hbr, Hstray.
+    set (s1 := mkSt [] (map x_rsegs r) (s_recvd s + 1)%N false (reser_req (x_req e) :: s_fwd s)
+                    (reser_resp (x_resp e) :: s_del s) (s_written s + 1)%N).
+    rewrite (waits_skip (x_waits e) _ s1) by exact Hw.
+    destruct (IH s1 Hok' eq_refl eq_refl eq_refl) as (s' & Hr & Hf & Hd & Hn & Hwr & Hb & Hbf).
+    exists s'. split; [exact Hr|]. cbn [s1 s_fwd s_del s_recvd s_written] in *.
+    cbn [map rev length]. rewrite <- !app_assoc. cbn [app].
+    repeat split; auto; lia.
+Qed.
+
+Lemma relay_aligned exs :
+  exs_ok 0 exs ->
+  exists s, run (flat_map items_of exs) (st0 (map x_rsegs exs)) = (s, EEof) /\
+    rev (s_fwd s) = map (fun e => reser_req (x_req e)) exs /\
+    rev (s_del s) = map (fun e => reser_resp (x_resp e)) exs /\
+    s_recvd s = N.of_nat (length exs) /\ s_written s = N.of_nat (length exs) /\ s_broken s = false.
+Proof.
+  intros H. destruct (relay_aligned_gen exs (st0 (map x_rsegs exs)) H eq_refl eq_refl eq_refl)
+    as (s & Hr & Hf & Hd & Hn & Hw & Hb & _).
+  exists s. split; [exact Hr|]. cbn [st0 s_fwd s_del s_recvd s_written] in *.
+  rewrite Hf, Hd, !app_nil_r, !rev_involutive. repeat split; auto; lia.
+Qed.
+
+(* ------------------------------------------------------------------ *)
+(* re-serialisation contract                                           *)
+
+Lemma insert_h_perm h l : Permutation (insert_h h l) (h :: l).
+Proof.
+  induction l as [|x l IH]; cbn [insert_h]; [apply Permutation_refl|].
+  destruct (leb_bytes (fst x) (fst h)); [|apply Permutation_refl].
+  eapply Permutation_trans; [apply perm_skip, IH|apply perm_swap].
+Qed.
+
+Lemma sort_headers_perm l : Permutation (sort_headers l) l.
+Proof.
+  unfold sort_headers.
+  assert (G : forall acc, Permutation (fold_left (fun acc h => insert_h h acc) l acc) (l ++ acc)).
+  { induction l as [|h l IH]; intros acc; cbn [fold_left app]; [apply Permutation_refl|].
+    eapply Permutation_trans; [apply IH|].
+    eapply Permutation_trans; [apply Permutation_app_head, insert_h_perm|].
+    apply Permutation_sym, Permutation_middle. }
+  specialize (G []). rewrite app_nil_r in G. exact G.
+Qed.
+
+Lemma reser_req_contract m :
+  let m' := reser_req m in
+  r_method m' = r_method m /\ r_target m' = r_target m /\ r_host m' = r_host m /\
+  r_chunked m' = r_chunked m /\ r_body m' = r_body m /\
+  Permutation (r_headers m') (ua_fix (r_headers m)).
+Proof. cbn. repeat split; auto. apply sort_headers_perm. Qed.
+
+Lemma ua_fix_id hs v : hget S_UA hs = Some v -> v <> [] -> ua_fix hs = hs.
+Proof. intros H Hv. unfold ua_fix. rewrite H. destruct v; [congruence|reflexivity]. Qed.
+
+Lemma reser_req_same_headers m v :
+  hget S_UA (r_headers m) = Some v -> v <> [] -> Permutation (r_headers (reser_req m)) (r_headers m).
+Proof. intros H Hv. cbn. rewrite (ua_fix_id _ _ H Hv). apply sort_headers_perm. Qed.
+
+Lemma reser_resp_contract p :
+  let p' := reser_resp p in
+  p_status p' = p_status p /\ p_chunked p' = p_chunked p /\ p_body p' = p_body p /\
+  Permutation (p_headers p') (p_headers p).
+Proof. cbn. repeat split; auto. apply sort_headers_perm. Qed.
+
+(* ------------------------------------------------------------------ *)
+(* (c) the type switch behind the server's wrapper                     *)
+
+Lemma switch_behind_server peeked accepted : type_switch (server_wrap peeked accepted) = BDefault.
+Proof. reflexivity. Qed.
+
+Lemma copy_behind_server peeked accepted segs reply :
+  copy_model (server_wrap peeked accepted) segs reply = raw_nothing.
+Proof. reflexivity. Qed.
+
+Lemma dns_behind_server peeked accepted d parses reply :
+  dns_model (server_wrap peeked accepted) d parses reply = raw_nothing.
+Proof. reflexivity. Qed.
+
+Lemma copy_bare k segs reply : k = KTcpConn \/ k = KDummyUdp ->
+  copy_model k segs reply = mkRaw 1 segs reply 1.
+Proof. intros [-> | ->]; reflexivity. Qed.
+
+Lemma dns_bare d reply : dns_model KDummyUdp d true (Some reply) = mkRaw 1 [d] [reply] 1.
+Proof. reflexivity. Qed.
+
+(* ------------------------------------------------------------------ *)
+(* (d) ssh                                                             *)
+
+Lemma auth_run_spec accepts attempts :
+  let '(tried, ok) := auth_run accepts attempts in
+  exists rest, attempts = tried ++ rest /\
+    if ok then exists pre c, tried = pre ++ [c] /\ accepts c = true /\ Forall (fun x => accepts x = false) pre
+    else rest = [] /\ Forall (fun x => accepts x = false) tried.
+Proof.
+  induction attempts as [|c r IH]; cbn [auth_run].
+  - exists []. split; [reflexivity|]. split; [reflexivity|constructor].
+  - destruct (accepts c) eqn:E.
+    + exists r. split; [reflexivity|]. exists [], c. repeat split; auto.
+    + destruct (auth_run accepts r) as [l ok]. destruct IH as (rest & -> & H).
+      exists rest. split; [reflexivity|]. destruct ok.
+      * destruct H as (pre & c' & -> & Hc & Hpre). exists (c :: pre), c'. repeat split; auto.
+      * destruct H as [-> Hall]. split; [reflexivity|]. constructor; assumption.
+Qed.
+
+Definition ssh_inv (s : ssh_st) : Prop :=
+  Forall (fun m => is_req m = true) (q_req s) /\ Forall (fun m => is_req m = false) (q_data s).
+
+Lemma filter_all {A} (f : A -> bool) l : Forall (fun x => f x = true) l -> filter f l = l.
+Proof. induction 1 as [|x l Hx _ IH]; cbn [filter]; [reflexivity|]. rewrite Hx, IH; reflexivity. Qed.
+
+Lemma filter_none {A} (f : A -> bool) l : Forall (fun x => f x = false) l -> filter f l = [].
+Proof. induction 1 as [|x l Hx _ IH]; cbn [filter]; [reflexivity|]. rewrite Hx, IH; reflexivity. Qed.
+
+Lemma data_of_app a b : data_of (a ++ b) = data_of a ++ data_of b.
+Proof. unfold data_of. apply flat_map_app. Qed.
+
+Lemma data_of_reqs l : Forall (fun m => is_req m = true) l -> data_of l = [].
+Proof.
+  induction 1 as [|x l Hx _ IH]; [reflexivity|]. unfold data_of in *. cbn [flat_map]. rewrite IH.
+  destruct x; [reflexivity|discriminate].
+Qed.
+
+Lemma ssh_step_inv s b : ssh_inv s -> ssh_inv (ssh_step s b).
+Proof.
+  intros [Hr Hd]. unfold ssh_step. destruct b.
+  - destruct (q_req s) eqn:E; [split; [rewrite E|]; assumption|].
+    split; cbn [q_req q_data]; [apply (Forall_inv_tail Hr)|exact Hd].
+  - destruct (q_data s) eqn:E; [split; [|rewrite E]; assumption|].
+    split; cbn [q_req q_data]; [exact Hr|apply (Forall_inv_tail Hd)].
+Qed.
+
+Lemma ssh_step_reqs s b : ssh_inv s ->
+  reqs_of (q_out (ssh_step s b)) ++ q_req (ssh_step s b) = reqs_of (q_out s) ++ q_req s.
+Proof.
+  intros [Hr Hd]. unfold ssh_step, reqs_of. destruct b.
+  - destruct (q_req s) as [|m r] eqn:E; [rewrite E; reflexivity|].
+    cbn [q_out q_req]. rewrite filter_app. cbn [filter]. rewrite (Forall_inv Hr). rewrite <- app_assoc. reflexivity.
+  - destruct (q_data s) as [|m r] eqn:E; [reflexivity|].
+    cbn [q_out q_req]. rewrite filter_app. cbn [filter]. rewrite (Forall_inv Hd), app_nil_r. reflexivity.
+Qed.
+
+Lemma ssh_step_data s b : ssh_inv s ->
+  data_of (q_out (ssh_step s b)) ++ data_of (q_data (ssh_step s b)) = data_of (q_out s) ++ data_of (q_data s).
+Proof.
+  intros [Hr Hd]. unfold ssh_step. destruct b.
+  - destruct (q_req s) as [|m r] eqn:E; [reflexivity|].
+    cbn [q_out q_data]. rewrite data_of_app. pose proof (Forall_inv Hr) as Hm.
+    destruct m; [|discriminate]. unfold data_of at 2. cbn [flat_map]. rewrite !app_nil_r. reflexivity.
+  - destruct (q_data s) as [|m r] eqn:E; [rewrite E; reflexivity|].
+    cbn [q_out q_data]. rewrite data_of_app, <- app_assoc.
+    change (m :: r) with ([m] ++ r). rewrite data_of_app. reflexivity.
+Qed.
+
+Lemma ssh_step_perm s b : Permutation (q_out (ssh_step s b) ++ q_req (ssh_step s b) ++ q_data (ssh_step s b))
+                                      (q_out s ++ q_req s ++ q_data s).
+Proof.
+  destruct s as [qr qd qo]. unfold ssh_step. cbn [q_req q_data q_out]. destruct b.
+  - destruct qr as [|m r]; cbn [q_req q_data q_out]; [apply Permutation_refl|].
+    rewrite <- app_assoc. apply Permutation_refl.
+  - destruct qd as [|m r]; cbn [q_req q_data q_out]; [apply Permutation_refl|].
+    rewrite <- app_assoc. apply Permutation_app_head.
+    cbn [app]. apply Permutation_middle.
+Qed.
+
+Lemma ssh_run_props sched : forall s, ssh_inv s ->
+  ssh_inv (ssh_run s sched) /\
+  reqs_of (q_out (ssh_run s sched)) ++ q_req (ssh_run s sched) = reqs_of (q_out s) ++ q_req s /\
+  data_of (q_out (ssh_run s sched)) ++ data_of (q_data (ssh_run s sched)) = data_of (q_out s) ++ data_of (q_data s) /\
+  Permutation (ssh_finish (ssh_run s sched)) (ssh_finish s).
+Proof.
+  induction sched as [|b r IH]; intros s Hi; cbn [ssh_run].
+  - repeat split; auto; apply Hi.
+  - destruct (IH _ (ssh_step_inv s b Hi)) as (H1 & H2 & H3 & H4).
+    split; [exact H1|]. split; [rewrite H2; apply ssh_step_reqs, Hi|].
+    split; [rewrite H3; apply ssh_step_data, Hi|].
+    eapply Permutation_trans; [exact H4|]. unfold ssh_finish. apply ssh_step_perm.
+Qed.
+
+Lemma demux_inv msgs : ssh_inv (ssh_demux msgs).
+Proof.
+  split; cbn [ssh_demux q_req q_data]; apply Forall_forall; intros x Hx; apply filter_In in Hx as [_ Hx];
+    [exact Hx|apply negb_true_iff, Hx].
+Qed.
+
+Lemma data_of_filter msgs : data_of (filter (fun m => negb (is_req m)) msgs) = data_of msgs.
+Proof.
+  induction msgs as [|m r IH]; [reflexivity|]. cbn [filter]. destruct m; cbn [is_req negb].
+  - unfold data_of in *. cbn [flat_map app]. exact IH.
+  - unfold data_of in *. cbn [flat_map]. rewrite IH. reflexivity.
+Qed.
+
+Lemma partition_perm {A} (f : A -> bool) l : Permutation (filter f l ++ filter (fun x => negb (f x)) l) l.
+Proof.
+  induction l as [|x l IH]; [apply Permutation_refl|]. cbn [filter]. destruct (f x); cbn [negb app].
+  - apply perm_skip, IH.
+  - eapply Permutation_trans; [apply Permutation_sym, Permutation_middle|]. apply perm_skip, IH.
+Qed.
+
+Lemma ssh_relay_order msgs sched :
+  reqs_of (ssh_relay msgs sched) = reqs_of msgs /\
+  data_of (ssh_relay msgs sched) = data_of msgs /\
+  Permutation (ssh_relay msgs sched) msgs.
+Proof.
+  unfold ssh_relay. destruct (ssh_run_props sched _ (demux_inv msgs)) as ([Hr Hd] & H2 & H3 & H4).
+  set (s := ssh_run (ssh_demux msgs) sched) in *. unfold ssh_finish at 1 2.
+  split; [|split].
+  - unfold reqs_of at 1. rewrite !filter_app. fold (reqs_of (q_out s)).
+    rewrite (filter_all _ _ Hr), (filter_none _ _ Hd), app_nil_r, H2. reflexivity.
+  - rewrite !data_of_app, (data_of_reqs _ Hr). cbn [app]. rewrite H3.
+    cbn [ssh_demux q_out q_data]. apply data_of_filter.
+  - eapply Permutation_trans; [exact H4|]. unfold ssh_finish. cbn [ssh_demux q_out q_req q_data app].
+    apply partition_perm.
+Qed.
+
+(* ------------------------------------------------------------------ *)
+(* concrete messages used as witnesses                                  *)
+
+(* GET /first HTTP/1.1\r\nHost: a\r\nUser-Agent: c\r\n\r\n *)
+Definition W_REQ_A : bytes := [71;69;84;32;47;102;105;114;115;116;32;72;84;84;80;47;49;46;49;13;10;72;111;115;116;58;32;97;13;10;85;115;101;114;45;65;103;101;110;116;58;32;99;13;10;13;10]%N.
+(* GET /second HTTP/1.1\r\nHost: a\r\nUser-Agent: c\r\n\r\n *)
+Definition W_REQ_B : bytes := [71;69;84;32;47;115;101;99;111;110;100;32;72;84;84;80;47;49;46;49;13;10;72;111;115;116;58;32;97;13;10;85;115;101;114;45;65;103;101;110;116;58;32;99;13;10;13;10]%N.
+(* HTTP/1.1 200 OK\r\nContent-Length: 2\r\n\r\nok *)
+Definition W_REPLY : bytes := [72;84;84;80;47;49;46;49;32;50;48;48;32;79;75;13;10;67;111;110;116;101;110;116;45;76;101;110;103;116;104;58;32;50;13;10;13;10;111;107]%N.
+(* GET /probe HTTP/1.1\r\nHost: example.com\r\n\r\n *)
+Definition W_REQ_NOUA : bytes := [71;69;84;32;47;112;114;111;98;101;32;72;84;84;80;47;49;46;49;13;10;72;111;115;116;58;32;101;120;97;109;112;108;101;46;99;111;109;13;10;13;10]%N.
+(* HEAD / HTTP/1.1\r\nHost: a\r\nUser-Agent: c\r\n\r\n *)
+Definition W_REQ_HEAD : bytes := [72;69;65;68;32;47;32;72;84;84;80;47;49;46;49;13;10;72;111;115;116;58;32;97;13;10;85;115;101;114;45;65;103;101;110;116;58;32;99;13;10;13;10]%N.
+(* HTTP/1.1 200 OK\r\nTransfer-Encoding: chunked\r\n\r\n *)
+Definition W_REPLY_HEAD : bytes := [72;84;84;80;47;49;46;49;32;50;48;48;32;79;75;13;10;84;114;97;110;115;102;101;114;45;69;110;99;111;100;105;110;103;58;32;99;104;117;110;107;101;100;13;10;13;10]%N.
+(* POST /p?x=1 HTTP/1.1\r\nhost: a\r\nX-m: 1\r\nuser-agent: c\r\nContent-Length: 5\r\nx-M: 2\r\n\r\nhello *)
+Definition W_REQ_POST : bytes := [80;79;83;84;32;47;112;63;120;61;49;32;72;84;84;80;47;49;46;49;13;10;104;111;115;116;58;32;97;13;10;88;45;109;58;32;49;13;10;117;115;101;114;45;97;103;101;110;116;58;32;99;13;10;67;111;110;116;101;110;116;45;76;101;110;103;116;104;58;32;53;13;10;120;45;77;58;32;50;13;10;13;10;104;101;108;108;111]%N.
+(* PUT /c HTTP/1.1\r\nHost: a\r\nUser-Agent: c\r\nTransfer-Encoding: chunked\r\n\r\n3\r\nabc\r\n2\r\nde\r\n0\r\n\r\n *)
+Definition W_REQ_CHUNKED : bytes := [80;85;84;32;47;99;32;72;84;84;80;47;49;46;49;13;10;72;111;115;116;58;32;97;13;10;85;115;101;114;45;65;103;101;110;116;58;32;99;13;10;84;114;97;110;115;102;101;114;45;69;110;99;111;100;105;110;103;58;32;99;104;117;110;107;101;100;13;10;13;10;51;13;10;97;98;99;13;10;50;13;10;100;101;13;10;48;13;10;13;10]%N.
+(* HTTP/1.1 404 Not Found\r\nServer: s\r\nTransfer-Encoding: chunked\r\n\r\n4\r\nnope\r\n0\r\n\r\n *)
+Definition W_REPLY_CHUNKED : bytes := [72;84;84;80;47;49;46;49;32;52;48;52;32;78;111;116;32;70;111;117;110;100;13;10;83;101;114;118;101;114;58;32;115;13;10;84;114;97;110;115;102;101;114;45;69;110;99;111;100;105;110;103;58;32;99;104;117;110;107;101;100;13;10;13;10;52;13;10;110;111;112;101;13;10;48;13;10;13;10]%N.
+
+(* ------------------------------------------------------------------ *)
+(* the concrete framing is self-delimiting for length-framed messages   *)
+
+Lemma is_prefix_length p l : is_prefix p l = true -> (length p <= length l)%nat.
+Proof.
+  revert l; induction p as [|x p IH]; intros l H; cbn [length]; [lia|].
+  destruct l as [|y l]; cbn [is_prefix] in H; [discriminate|].
+  apply andb_true_iff in H as [_ H]. specialize (IH _ H). cbn [length]. lia.
+Qed.
+
+Lemma is_prefix_firstn p k l : is_prefix p (firstn k l) = true -> is_prefix p l = true.
+Proof.
+  revert k l; induction p as [|x p IH]; intros k l H; [reflexivity|].
+  destruct k as [|k]; [cbn in H; discriminate|]. destruct l as [|y l]; [cbn in H; discriminate|].
+  cbn [firstn is_prefix] in *. apply andb_true_iff in H as [H1 H2]. rewrite H1, (IH _ _ H2). reflexivity.
+Qed.
+
+Lemma is_prefix_firstn_ge p k l : is_prefix p l = true -> (length p <= k)%nat -> is_prefix p (firstn k l) = true.
+Proof.
+  revert k l; induction p as [|x p IH]; intros k l H Hk; [reflexivity|].
+  destruct l as [|y l]; [cbn in H; discriminate|]. destruct k as [|k]; [cbn [length] in Hk; lia|].
+  cbn [firstn is_prefix] in *. apply andb_true_iff in H as [H1 H2]. rewrite H1. cbn [andb].
+  apply IH; [exact H2|cbn [length] in Hk; lia].
+Qed.
+
+Lemma find_crlf2_short l : (length l < 4)%nat -> find_crlf2 l = None.
+Proof.
+  induction l as [|x l IH]; intros H; [reflexivity|]. cbn [find_crlf2].
+  destruct (is_prefix CRLF2 (x :: l)) eqn:E.
+  - apply is_prefix_length in E. cbn [CRLF2 length] in *. lia.
+  - rewrite IH; [reflexivity|cbn [length] in H; lia].
+Qed.
+
+Lemma find_crlf2_firstn_lt l : forall i k, find_crlf2 l = Some i -> (k < i + 4)%nat -> find_crlf2 (firstn k l) = None.
+Proof.
+  induction l as [|x l IH]; intros i k H Hk; [discriminate|].
+  destruct k as [|k]; [reflexivity|]. cbn [firstn]. cbn [find_crlf2] in H.
+  destruct (is_prefix CRLF2 (x :: l)) eqn:E.
+  - inversion H; subst i. apply find_crlf2_short.
+    change (x :: firstn k l) with (firstn (S k) (x :: l)). rewrite firstn_length. lia.
+  - destruct (find_crlf2 l) as [i'|] eqn:F; [|discriminate]. inversion H; subst i.
+    cbn [find_crlf2].
+    destruct (is_prefix CRLF2 (x :: firstn k l)) eqn:E2.
+    + change (x :: firstn k l) with (firstn (S k) (x :: l)) in E2. apply is_prefix_firstn in E2. congruence.
+    + rewrite (IH i' k eq_refl) by lia. reflexivity.
+Qed.
+
+Lemma find_crlf2_firstn_ge l : forall i k, find_crlf2 l = Some i -> (i + 4 <= k)%nat -> find_crlf2 (firstn k l) = Some i.
+Proof.
+  induction l as [|x l IH]; intros i k H Hk; [discriminate|].
+  destruct k as [|k]; [lia|]. cbn [firstn]. cbn [find_crlf2] in H. cbn [find_crlf2].
+  destruct (is_prefix CRLF2 (x :: l)) eqn:E.
+  - inversion H; subst i.
+    change (x :: firstn k l) with (firstn (S k) (x :: l)).
+    rewrite (is_prefix_firstn_ge _ _ _ E) by (cbn [CRLF2 length]; lia). reflexivity.
+  - destruct (find_crlf2 l) as [i'|] eqn:F; [|discriminate]. inversion H; subst i.
+    destruct (is_prefix CRLF2 (x :: firstn k l)) eqn:E2.
+    + change (x :: firstn k l) with (firstn (S k) (x :: l)) in E2. apply is_prefix_firstn in E2. congruence.
+    + rewrite (IH i' k eq_refl) by lia. reflexivity.
+Qed.
+
+Lemma find_crlf2_bound l i : find_crlf2 l = Some i -> (i + 4 <= length l)%nat.
+Proof.
+  revert i; induction l as [|x l IH]; intros i H; [discriminate|]. cbn [find_crlf2] in H.
+  destruct (is_prefix CRLF2 (x :: l)) eqn:E.
+  - inversion H; subst. apply is_prefix_length in E. cbn [CRLF2 length] in *. lia.
+  - destruct (find_crlf2 l) as [i'|]; [|discriminate]. inversion H; subst. specialize (IH _ eq_refl). cbn [length]. lia.
+Qed.
+
+Lemma firstn_firstn_le {A} (l : list A) i k : (i <= k)%nat -> firstn i (firstn k l) = firstn i l.
+Proof. intros H. rewrite firstn_firstn. f_equal. lia. Qed.
+
+Lemma skipn_firstn_length {A} (l : list A) a k : (k <= length l)%nat ->
+  length (skipn a (firstn k l)) = (k - a)%nat.
+Proof. intros H. rewrite skipn_length, firstn_length. lia. Qed.
+
+(* a length-framed request that parses as exactly itself is self-delimiting *)
+Lemma frame_req_sd msg m :
+  frame_req msg = QComplete (length msg) m -> r_chunked m = false -> sd_req msg m.
+Proof.
+  intros H Hc. split; [exact H|]. intros k Hk.
+  unfold frame_req in H |- *.
+  destruct (find_crlf2 msg) as [i|] eqn:F; [|discriminate].
+  pose proof (find_crlf2_bound _ _ F) as Hb.
+  destruct (Nat.lt_ge_cases k (i + 4)) as [Hlt|Hge].
+  - rewrite (find_crlf2_firstn_lt _ _ _ F Hlt). reflexivity.
+  - rewrite (find_crlf2_firstn_ge _ _ _ F Hge).
+    rewrite (firstn_firstn_le msg i k) by lia.
+    destruct (split_crlf (firstn i msg)) as [|l0 ls]; [discriminate|].
+    destruct (parse_reqline l0) as [[mt tg]|]; [|discriminate].
+    destruct (parse_headers ls) as [hs|]; [|discriminate].
+    destruct (body_kind_of hs (BKLen 0)) as [|n|]; [discriminate| |].
+    + destruct (N.to_nat n <=? length (skipn (i + 4) msg))%nat eqn:E; [|discriminate].
+      inversion H as [[Hn Hm]]. rewrite skipn_firstn_length by lia.
+      destruct (N.to_nat n <=? k - (i + 4))%nat eqn:E2; [|reflexivity].
+      apply Nat.leb_le in E2. lia.
+    + destruct (dechunk _ _ _ _); try discriminate. inversion H as [[Hn Hm]]. subst m. cbn in Hc. discriminate.
+Qed.
+
+(* the same for a reply with a declared length, or without a body *)
+Lemma frame_resp_sd h raw p :
+  frame_resp h raw = PComplete (length raw) p -> (p_chunked p = false \/ h = true \/ no_body_status (p_status p) = true) ->
+  sd_resp h raw p.
+Proof.
+  intros H Hc. split; [exact H|]. intros k Hk.
+  unfold frame_resp in H |- *.
+  destruct (find_crlf2 raw) as [i|] eqn:F; [|discriminate].
+  pose proof (find_crlf2_bound _ _ F) as Hb.
+  destruct (Nat.lt_ge_cases k (i + 4)) as [Hlt|Hge].
+  - rewrite (find_crlf2_firstn_lt _ _ _ F Hlt). reflexivity.
+  - rewrite (find_crlf2_firstn_ge _ _ _ F Hge).
+    rewrite (firstn_firstn_le raw i k) by lia.
+    destruct (split_crlf (firstn i raw)) as [|l0 ls]; [discriminate|].
+    destruct (parse_statusline l0) as [st|]; [|discriminate].
+    destruct (parse_headers ls) as [hs|]; [|discriminate].
+    destruct (h || no_body_status st) eqn:Enb.
+    + inversion H as [[Hn Hm]]. lia.
+    + destruct (body_kind_of hs BKBad) as [|n|]; [discriminate| |].
+      * destruct (N.to_nat n <=? length (skipn (i + 4) raw))%nat eqn:E; [|discriminate].
+        inversion H as [[Hn Hm]]. rewrite skipn_firstn_length by lia.
+        destruct (N.to_nat n <=? k - (i + 4))%nat eqn:E2; [|reflexivity].
+        apply Nat.leb_le in E2. lia.
+      * destruct (dechunk _ _ _ _); try discriminate. inversion H as [[Hn Hm]]. subst p. cbn in Hc.
+        apply orb_false_iff in Enb as [-> Hs]. destruct Hc as [Hc|[Hc|Hc]]; congruence.
+Qed.
+
+(* ------------------------------------------------------------------ *)
+(* executable self-delimitation check (used for chunked witnesses)      *)
+
+Definition DUMMY_REQ : sem_req := mkReq [] [] [] [] false [].
+Definition DUMMY_RESP : sem_resp := mkResp 0 [] false [].
+Definition parsed_req (b : bytes) : sem_req := match frame_req b with QComplete _ m => m | _ => DUMMY_REQ end.
+Definition parsed_resp (h : bool) (b : bytes) : sem_resp := match frame_resp h b with PComplete _ p => p | _ => DUMMY_RESP end.
+
+Definition sd_req_b (msg : bytes) : bool :=
+  match frame_req msg with
+  | QComplete n _ => (n =? length msg)%nat &&
+      forallb (fun k => match frame_req (firstn k msg) with QIncomplete => true | _ => false end) (seq 0 (length msg))
+  | _ => false
+  end.
+
+Definition sd_resp_b (h : bool) (raw : bytes) : bool :=
+  match frame_resp h raw with
+  | PComplete n _ => (n =? length raw)%nat &&
+      forallb (fun k => match frame_resp h (firstn k raw) with PIncomplete => true | _ => false end) (seq 0 (length raw))
+  | _ => false
+  end.
+
+Lemma sd_req_b_sound msg : sd_req_b msg = true -> sd_req msg (parsed_req msg).
+Proof.
+  unfold sd_req_b, parsed_req. destruct (frame_req msg) as [| |n m] eqn:F; try discriminate.
+  intros H. apply andb_true_iff in H as [Hn Hall]. apply Nat.eqb_eq in Hn; subst n.
+  split; [exact F|]. intros k Hk. rewrite forallb_forall in Hall.
+  specialize (Hall k ltac:(apply in_seq; lia)). destruct (frame_req (firstn k msg)); congruence.
+Qed.
+
+Lemma sd_resp_b_sound h raw : sd_resp_b h raw = true -> sd_resp h raw (parsed_resp h raw).
+Proof.
+  unfold sd_resp_b, parsed_resp. destruct (frame_resp h raw) as [| |n p] eqn:F; try discriminate.
+  intros H. apply andb_true_iff in H as [Hn Hall]. apply Nat.eqb_eq in Hn; subst n.
+  split; [exact F|]. intros k Hk. rewrite forallb_forall in Hall.
+  specialize (Hall k ltac:(apply in_seq; lia)). destruct (frame_resp h (firstn k raw)); congruence.
+Qed.
+
+(* ------------------------------------------------------------------ *)
+(* refutations                                                         *)
+
+(* two requests in one write: the second never reaches the backend *)
+Lemma pipelined_refuted :
+  exists a b ma mb reply p,
+    sd_req a ma /\ sd_req b mb /\ sd_resp false reply p /\
+    exists s, run [ISeg (a ++ b); IWait 2%N] (st0 [[reply]; [reply]]) = (s, EGaveUp) /\
+              rev (s_fwd s) = [reser_req ma] /\ s_recvd s = 1%N.
+Proof.
+  exists W_REQ_A, W_REQ_B, (parsed_req W_REQ_A), (parsed_req W_REQ_B), W_REPLY, (parsed_resp false W_REPLY).
+  split; [apply sd_req_b_sound; vm_compute; reflexivity|].
+  split; [apply sd_req_b_sound; vm_compute; reflexivity|].
+  split; [apply sd_resp_b_sound; vm_compute; reflexivity|].
+  eexists. split; [vm_compute; reflexivity|]. split; vm_compute; reflexivity.
+Qed.
+
+(* the same two requests, one write each and no waiting: both are relayed *)
+Lemma pipelined_aligned_example :
+  exists s, run [ISeg W_REQ_A; ISeg W_REQ_B; IWait 2%N] (st0 [[W_REPLY]; [W_REPLY]]) = (s, EEof) /\
+            rev (s_fwd s) = [reser_req (parsed_req W_REQ_A); reser_req (parsed_req W_REQ_B)] /\ s_recvd s = 2%N.
+Proof. eexists. split; [vm_compute; reflexivity|]. split; vm_compute; reflexivity. Qed.
+
+(* a request without User-Agent reaches the backend with net/http's default one *)
+Lemma user_agent_refuted :
+  exists msg m, sd_req msg m /\ hget S_UA (r_headers m) = None /\
+                hget S_UA (r_headers (reser_req m)) = Some S_GOUA.
+Proof.
+  exists W_REQ_NOUA, (parsed_req W_REQ_NOUA).
+  split; [apply sd_req_b_sound; vm_compute; reflexivity|]. split; vm_compute; reflexivity.
+Qed.
+
+(* HEAD answered with Transfer-Encoding: chunked: the client's stream is corrupted; a
+   lock-step client never sees the reply to its next request *)
+Lemma head_chunked_refuted :
+  exists a b ma mb r1 p1 r2 p2,
+    sd_req a ma /\ sd_req b mb /\ sd_resp true r1 p1 /\ sd_resp false r2 p2 /\
+    exists s, run [ISeg a; IWait 1%N; ISeg b; IWait 2%N] (st0 [[r1]; [r2]]) = (s, EGaveUp) /\
+              s_broken s = true /\ length (s_fwd s) = 2%nat /\ s_written s = 2%N /\ length (s_del s) = 1%nat.
+Proof.
+  exists W_REQ_HEAD, W_REQ_A, (parsed_req W_REQ_HEAD), (parsed_req W_REQ_A),
+         W_REPLY_HEAD, (parsed_resp true W_REPLY_HEAD), W_REPLY, (parsed_resp false W_REPLY).
+  split; [apply sd_req_b_sound; vm_compute; reflexivity|].
+  split; [apply sd_req_b_sound; vm_compute; reflexivity|].
+  split; [apply sd_resp_b_sound; vm_compute; reflexivity|].
+  split; [apply sd_resp_b_sound; vm_compute; reflexivity|].
+  eexists. split; [vm_compute; reflexivity|]. repeat split; vm_compute; reflexivity.
+Qed.
+
+Lemma copy_relays_refuted :
+  exists segs reply, concat segs <> [] /\
+    w_backend (copy_model (server_wrap false KTcpConn) segs reply) = [] /\
+    w_backend (copy_model (server_wrap false KDummyUdp) segs reply) = [].
+Proof. exists [[104; 105]%N], [[111; 107]%N]. split; [discriminate|]. split; reflexivity. Qed.
+
+Lemma dns_relays_refuted :
+  exists d reply, d <> [] /\ w_backend (dns_model (server_wrap false KDummyUdp) d true (Some reply)) = [].
+Proof. exists [1; 2]%N, [3]%N. split; [discriminate|reflexivity]. Qed.
+
+(* data written after a channel request can overtake it *)
+Lemma ssh_cross_order_refuted :
+  exists msgs sched, ssh_relay msgs sched <> msgs.
+Proof.
+  exists [MReq [101; 120; 101; 99]%N true [108; 115]%N; MData [120]%N], [false].
+  vm_compute. discriminate.
+Qed.
+
+(* non-vacuity of the relay theorem: a length-framed POST written in three pieces and
+   awaited, then a chunked PUT and a GET written back to back without waiting (one
+   write each), the backend answering in pieces, once chunked *)
+Definition EXS : list exch :=
+  [ mkEx W_REQ_POST (parsed_req W_REQ_POST) (cut [10; 70]%N W_REQ_POST) [1%N]
+         W_REPLY (parsed_resp false W_REPLY) (cut [3; 30]%N W_REPLY);
+    mkEx W_REQ_CHUNKED (parsed_req W_REQ_CHUNKED) [W_REQ_CHUNKED] []
+         W_REPLY_CHUNKED (parsed_resp false W_REPLY_CHUNKED) (cut [60]%N W_REPLY_CHUNKED);
+    mkEx W_REQ_A (parsed_req W_REQ_A) (cut [1]%N W_REQ_A) [3%N; 2%N]
+         W_REPLY (parsed_resp false W_REPLY) [W_REPLY] ].
+
+Lemma exs_example_ok : exs_ok 0 EXS.
+Proof.
+  cbn [exs_ok EXS]. repeat split.
+  all: try (apply sd_req_b_sound; vm_compute; reflexivity).
+  all: try (apply sd_resp_b_sound; vm_compute; reflexivity).
+  all: try (vm_compute; reflexivity).
+  all: try (repeat constructor; try discriminate; vm_compute; intros; discriminate).
+Qed.
